@@ -1020,6 +1020,13 @@ class Evaluation:
                     dest, rv = st[1], st[2]
                     dty = fn.types.get(dest.local, "") if not dest.projs else ""
                     val = self.eval_rvalue(env, rv, dty, node)
+                    if rv[0] == "cast" and len(rv) > 3 and rv[3].startswith("IntToInt") and rv[2].strip() in INT_BITS:
+                        # a narrowing integer cast (`x as u32`): an event, so that obligations can ask which values reach it
+                        a_, ta_ = self.read_operand(env, rv[1])
+                        t_ = self.to_term(a_, ta_)
+                        if t_ is not None and z3.is_bv(t_) and t_.size() > INT_BITS[rv[2].strip()]:
+                            self.events.append(Event(node, bb, layer, "narrowing_cast", "narrowing_cast", f"narrowing_cast@bb{bb}.{layer}",
+                                                     [a_], [ta_, rv[2].strip()], reach, dict(env), st[3], ""))
                     if self.watch and not dest.projs:
                         for nm in self.local_names(dest.local):
                             if nm in self.watch:
